@@ -173,6 +173,12 @@ type genWalker struct {
 	Frags     []genFrag
 	Problems  []genProblem
 	lastConst string
+
+	changed   bool       // a parameter class was widened during this walk: walk again
+	evalDepth int        // > 0 while a string-valued helper is evaluated for its result (nothing is emitted)
+	retExprs  []ast.Expr // results of the return statements seen while evaluating a helper
+	retFn     []string
+	origIdent map[*ast.Ident]types.Object
 }
 
 type genProblem struct {
@@ -388,7 +394,11 @@ func (a *genWalker) pieces(e ast.Expr) ([]genPiece, bool) {
 		}
 	case *ast.Ident:
 		obj := a.info.Uses[x]
-		if def, ok := a.locals[obj]; ok {
+		orig := false
+		if o, ok := a.origIdent[x]; ok {
+			obj, orig = o, true // the value the variable had before it was reassigned (a parameter)
+		}
+		if def, ok := a.locals[obj]; ok && !orig {
 			ps, ok := a.pieces(def)
 			if ok && a.kwSafe[obj] {
 				for i := range ps {
@@ -409,6 +419,12 @@ func (a *genWalker) pieces(e ast.Expr) ([]genPiece, bool) {
 			}
 		}
 	case *ast.CallExpr:
+		if id, ok := x.Fun.(*ast.Ident); ok {
+			if fd, ok := a.funcs[id.Name]; ok && fd.Type.Results != nil && len(fd.Type.Results.List) >= 1 &&
+				types.Identical(a.info.TypeOf(fd.Type.Results.List[0].Type), types.Typ[types.String]) {
+				return a.evalStringFunc(fd, x)
+			}
+		}
 		if se, ok := x.Fun.(*ast.SelectorExpr); ok {
 			if id, ok := se.X.(*ast.Ident); ok && id.Name == "strings" {
 				switch se.Sel.Name {
@@ -633,6 +649,7 @@ func (a *genWalker) stmt(s ast.Stmt, l lexState, rets *[]lexState) (lexState, bo
 			}
 			if id, ok := call.Fun.(*ast.Ident); ok {
 				if fd, ok := a.funcs[id.Name]; ok {
+					a.bindParams(fd, call)
 					return a.callFn(fd, l, call), false
 				}
 			}
@@ -650,7 +667,17 @@ func (a *genWalker) stmt(s ast.Stmt, l lexState, rets *[]lexState) (lexState, bo
 							a.locals[obj] = &ast.BinaryExpr{X: old, Op: token.ADD, Y: x.Rhs[0]}
 						}
 					} else {
-						a.locals[obj] = x.Rhs[0]
+						// v = f(v): the occurrences of v on the right denote the previous value
+						old, had := a.locals[obj]
+						if !had {
+							orig := &ast.Ident{Name: id.Name, NamePos: id.NamePos}
+							if a.origIdent == nil {
+								a.origIdent = map[*ast.Ident]types.Object{}
+							}
+							a.origIdent[orig] = obj
+							old = orig
+						}
+						a.locals[obj] = a.substIdent(x.Rhs[0], obj, old)
 					}
 				}
 			}
@@ -661,6 +688,10 @@ func (a *genWalker) stmt(s ast.Stmt, l lexState, rets *[]lexState) (lexState, bo
 		// keyword guard: if token.Lookup(v).IsKeyword() { v += "_" }
 		if obj := keywordGuard(a.info, x); obj != nil {
 			a.kwSafe[obj] = true
+			if _, isRet := x.Body.List[0].(*ast.ReturnStmt); isRet {
+				// the guarded return is one of the helper's results
+				a.stmts(x.Body.List, l, rets)
+			}
 			return l, false
 		}
 		thenL, thenDead := a.stmts(x.Body.List, l, rets)
@@ -723,10 +754,131 @@ func (a *genWalker) stmt(s ast.Stmt, l lexState, rets *[]lexState) (lexState, bo
 		}
 		return j, false
 	case *ast.ReturnStmt:
+		if a.evalDepth > 0 && len(x.Results) >= 1 {
+			a.retExprs = append(a.retExprs, x.Results[0])
+			a.retFn = append(a.retFn, a.curFn)
+		}
 		*rets = append(*rets, l)
 		return l, true
 	}
 	return l, false
+}
+
+// bindParams: the string parameters of a helper are classified by what its call sites pass (union over the call sites
+// seen during the walk; the walk is repeated until no class grows).
+func (a *genWalker) bindParams(fd *ast.FuncDecl, call *ast.CallExpr) {
+	if fd.Type.Params == nil {
+		return
+	}
+	idx := 0
+	for _, fld := range fd.Type.Params.List {
+		for _, pn := range fld.Names {
+			if types.Identical(a.info.TypeOf(fld.Type), types.Typ[types.String]) && idx < len(call.Args) {
+				key := "param:" + fd.Name.Name + "." + pn.Name
+				var d *genDyn
+				ps, ok := a.pieces(call.Args[idx])
+				switch {
+				case ok && len(ps) == 1 && ps[0].dyn != nil:
+					c := *ps[0].dyn
+					c.first, c.rest = c.first.copy(), c.rest.copy()
+					c.what = "argument of " + fd.Name.Name + " (" + c.what + ", …)"
+					d = &c
+				case ok && len(ps) == 1 && ps[0].dyn == nil:
+					// a constant
+					var f, r genCharset
+					k := ps[0].konst
+					if k != "" {
+						f[k[0]] = true
+						for i := 1; i < len(k); i++ {
+							r[k[i]] = true
+						}
+					}
+					d = &genDyn{what: "argument of " + fd.Name.Name + fmt.Sprintf(" (constant %q, …)", k), first: &f, rest: &r}
+				default:
+					d = &genDyn{what: "argument of " + fd.Name.Name + " (unclassified)", first: gcsAny(), rest: gcsAny()}
+				}
+				d.raw = false
+				if old, seen := a.classes[key]; !seen {
+					a.classes[key] = d
+					a.changed = true
+				} else {
+					for i := range old.first {
+						if d.first[i] && !old.first[i] {
+							old.first[i] = true
+							a.changed = true
+						}
+						if d.rest[i] && !old.rest[i] {
+							old.rest[i] = true
+							a.changed = true
+						}
+					}
+					if old.kwSafe && !d.kwSafe {
+						old.kwSafe = false
+						a.changed = true
+					}
+				}
+			}
+			idx++
+		}
+	}
+}
+
+// evalStringFunc: the pieces of the string a helper function returns for the given call, if the helper has one return
+// statement with a classifiable result (its body is walked for the assignments to its locals; nothing is emitted).
+func (a *genWalker) evalStringFunc(fd *ast.FuncDecl, call *ast.CallExpr) ([]genPiece, bool) {
+	if a.evalDepth > 3 || fd.Body == nil {
+		return nil, false
+	}
+	a.bindParams(fd, call)
+	saveFn, saveRet, saveRetFn := a.curFn, a.retExprs, a.retFn
+	nSpl, nPrb, nFrag := len(a.Splices), len(a.Problems), len(a.Frags)
+	a.evalDepth++
+	a.curFn = fd.Name.Name
+	a.retExprs, a.retFn = nil, nil
+	var rets []lexState
+	a.stmts(fd.Body.List, lexState{}, &rets)
+	res := a.retExprs
+	var out []genPiece
+	ok := len(res) >= 1
+	if len(res) == 1 {
+		out, ok = a.pieces(res[0])
+	} else if ok {
+		// several returns: each `<one dynamic piece> [+ constant suffix]`; the result is their union
+		var u *genDyn
+		for _, e := range res {
+			ps, ok1 := a.pieces(e)
+			if !ok1 || len(ps) == 0 || len(ps) > 2 || ps[0].dyn == nil || (len(ps) == 2 && ps[1].dyn != nil) {
+				ok = false
+				break
+			}
+			d := *ps[0].dyn
+			d.first, d.rest = d.first.copy(), d.rest.copy()
+			if len(ps) == 2 {
+				for i := 0; i < len(ps[1].konst); i++ {
+					d.rest[ps[1].konst[i]] = true
+				}
+				d.what += fmt.Sprintf("+%q", ps[1].konst)
+			}
+			if u == nil {
+				u = &d
+				continue
+			}
+			for i := range u.first {
+				u.first[i] = u.first[i] || d.first[i]
+				u.rest[i] = u.rest[i] || d.rest[i]
+			}
+			u.kwSafe = u.kwSafe && d.kwSafe
+			u.raw = false
+		}
+		if ok {
+			u.what = "result of " + fd.Name.Name + " (" + u.what + ", …)"
+			out = []genPiece{{dyn: u}}
+		}
+	}
+	a.evalDepth--
+	a.curFn, a.retExprs, a.retFn = saveFn, saveRet, saveRetFn
+	a.Splices, a.Problems, a.Frags = a.Splices[:nSpl], a.Problems[:nPrb], a.Frags[:nFrag]
+	return out, ok
 }
 
 // keywordGuard recognises `if token.Lookup(v).IsKeyword() { v += <non-empty identifier constant> }`.
@@ -754,15 +906,36 @@ func keywordGuard(info *types.Info, x *ast.IfStmt) types.Object {
 	if !ok || x.Else != nil || len(x.Body.List) != 1 {
 		return nil
 	}
-	as, ok := x.Body.List[0].(*ast.AssignStmt)
-	if !ok || as.Tok != token.ADD_ASSIGN || len(as.Lhs) != 1 {
+	var sfx ast.Expr
+	switch st := x.Body.List[0].(type) {
+	case *ast.AssignStmt:
+		// v += "<suffix>"
+		if st.Tok != token.ADD_ASSIGN || len(st.Lhs) != 1 {
+			return nil
+		}
+		lid, ok := st.Lhs[0].(*ast.Ident)
+		if !ok || info.Uses[lid] != info.Uses[id] {
+			return nil
+		}
+		sfx = st.Rhs[0]
+	case *ast.ReturnStmt:
+		// return v + "<suffix>"  (in a helper that otherwise returns v)
+		if len(st.Results) != 1 {
+			return nil
+		}
+		be, ok := st.Results[0].(*ast.BinaryExpr)
+		if !ok || be.Op != token.ADD {
+			return nil
+		}
+		lid, ok := be.X.(*ast.Ident)
+		if !ok || info.Uses[lid] != info.Uses[id] {
+			return nil
+		}
+		sfx = be.Y
+	default:
 		return nil
 	}
-	lid, ok := as.Lhs[0].(*ast.Ident)
-	if !ok || info.Uses[lid] != info.Uses[id] {
-		return nil
-	}
-	tv, ok := info.Types[as.Rhs[0]]
+	tv, ok := info.Types[sfx]
 	if !ok || tv.Value == nil || tv.Value.Kind() != constant.String {
 		return nil
 	}
@@ -830,51 +1003,54 @@ func RunGenWalker(p *Prog, m *idlModel, root string) (*genWalker, lexState, stri
 	if gt == nil {
 		return nil, lexState{}, "function " + root + " not found in the generator"
 	}
-	// string parameters of helper functions: classify by the arguments at their call sites (union)
-	for name, fd := range a.funcs {
-		if name == root || fd.Type.Params == nil {
-			continue
-		}
-		idx := 0
-		for _, fld := range fd.Type.Params.List {
-			for _, pn := range fld.Names {
-				if types.Identical(a.info.TypeOf(fld.Type), types.Typ[types.String]) {
-					var u *genDyn
-					ast.Inspect(gt, func(n ast.Node) bool {
-						call, ok := n.(*ast.CallExpr)
-						if !ok {
-							return true
-						}
-						if id, ok := call.Fun.(*ast.Ident); ok && id.Name == name && idx < len(call.Args) {
-							if ps, ok := a.pieces(call.Args[idx]); ok && len(ps) == 1 && ps[0].dyn != nil {
-								if u == nil {
-									c := *ps[0].dyn
-									c.first, c.rest = c.first.copy(), c.rest.copy()
-									c.what = "argument of " + name + " (" + c.what + ", …)"
-									u = &c
-								} else {
-									for i := range u.first {
-										u.first[i] = u.first[i] || ps[0].dyn.first[i]
-										u.rest[i] = u.rest[i] || ps[0].dyn.rest[i]
-									}
-								}
-							} else {
-								u = &genDyn{what: "argument of " + name + " (unclassified)", first: gcsAny(), rest: gcsAny()}
-							}
-						}
-						return true
-					})
-					if u != nil {
-						u.raw = false
-						a.classes["param:"+name+"."+pn.Name] = u
-					}
-				}
-				idx++
-			}
+	// (string parameters of helper functions are classified during the walk by what their call sites pass: bindParams)
+	var end lexState
+	for iter := 0; iter < 6; iter++ {
+		a.changed = false
+		a.Splices, a.Frags, a.Problems = nil, nil, nil
+		a.locals, a.kwSafe, a.memo = map[types.Object]ast.Expr{}, map[types.Object]bool{}, map[string]lexState{}
+		a.curFn, a.lastConst = root, ""
+		var rets []lexState
+		end, _ = a.stmts(gt.Body.List, lexState{}, &rets)
+		if !a.changed {
+			break
 		}
 	}
-	var rets []lexState
-	end, _ := a.stmts(gt.Body.List, lexState{}, &rets)
+	if a.changed {
+		a.problem(gt, "the classes of helper parameters did not stabilise")
+	}
 	sort.SliceStable(a.Splices, func(i, j int) bool { return a.Splices[i].Pos < a.Splices[j].Pos })
 	return a, end, ""
+}
+
+// substIdent rebuilds e with the uses of obj replaced by repl (parenthesised, binary and call expressions only).
+func (a *genWalker) substIdent(e ast.Expr, obj types.Object, repl ast.Expr) ast.Expr {
+	switch x := e.(type) {
+	case *ast.Ident:
+		if a.info.Uses[x] == obj {
+			return repl
+		}
+	case *ast.ParenExpr:
+		if n := a.substIdent(x.X, obj, repl); n != x.X {
+			return &ast.ParenExpr{Lparen: x.Lparen, X: n, Rparen: x.Rparen}
+		}
+	case *ast.BinaryExpr:
+		l, r := a.substIdent(x.X, obj, repl), a.substIdent(x.Y, obj, repl)
+		if l != x.X || r != x.Y {
+			return &ast.BinaryExpr{X: l, OpPos: x.OpPos, Op: x.Op, Y: r}
+		}
+	case *ast.CallExpr:
+		changed := false
+		args := make([]ast.Expr, len(x.Args))
+		for i, arg := range x.Args {
+			args[i] = a.substIdent(arg, obj, repl)
+			if args[i] != arg {
+				changed = true
+			}
+		}
+		if changed {
+			return &ast.CallExpr{Fun: x.Fun, Lparen: x.Lparen, Args: args, Ellipsis: x.Ellipsis, Rparen: x.Rparen}
+		}
+	}
+	return e
 }
